@@ -823,6 +823,39 @@ theorem bin_tensor_independent (s : Nat) (dims : List Nat) (comps : List (List K
   unfold binTensor
   rw [chunks_flatten_eq _ _ h, List.flatMap_def]
 
+/-- **Tensor components are binned independently — about the reshape the code performs.**  `binTensorL` is the
+code's single `reshape` to `tensor_shape + (n_1, s_1, …)` followed by one reduction over the `s` axes (the tensor
+axes are unbinned leading axes of the same array; driver op `bintl`).  Binning the stacked components that way
+equals stacking the separately binned components, for every tensor shape and per-axis factors.  (The theorem
+`bin_tensor_independent` above is about `binTensor`, which is component-wise by definition.) -/
+theorem bin_tensor_reshape_independent (ss dims tshape : List Nat) (comps : List (List K))
+    (hn : comps.length = size tshape) (h : ∀ c ∈ comps, c.length = fineSizes ss dims) :
+    binTensorL ss dims tshape comps.flatten = (comps.map (binNDs ss dims)).flatten := by
+  have hlen : comps.flatten.length = size tshape * fineSizes ss dims := by
+    rw [List.length_flatten, List.map_congr_left (g := fun _ => fineSizes ss dims) h]
+    simp [hn]
+  rw [binTensorL_eq ss dims tshape _ hlen, ← hn, chunks_flatten_eq _ _ h, List.flatMap_def]
+
+/-- the same for one common factor and for `statistic='mean'` (regular grids) -/
+theorem bin_tensor_reshape_independent_uniform (s : Nat) (dims tshape : List Nat) (comps : List (List K))
+    (hn : comps.length = size tshape) (h : ∀ c ∈ comps, c.length = fineSize s dims) :
+    binTensorL (dims.map fun _ => s) dims tshape comps.flatten = (comps.map (binND s dims)).flatten ∧
+    (binTensorL (dims.map fun _ => s) dims tshape comps.flatten).map (· / ((s ^ dims.length : Nat) : K))
+      = (comps.map (binMean s dims)).flatten := by
+  have h' : ∀ c ∈ comps, c.length = fineSizes (dims.map fun _ => s) dims := by
+    intro c hc; rw [fineSizes_replicate]; exact h c hc
+  have e := bin_tensor_reshape_independent (dims.map fun _ => s) dims tshape comps hn h'
+  have e2 : comps.map (binNDs (dims.map fun _ => s) dims) = comps.map (binND s dims) :=
+    List.map_congr_left fun c _ => binNDs_replicate s dims c
+  rw [e, e2]
+  refine ⟨rfl, ?_⟩
+  rw [List.map_flatten, List.map_map]
+  rfl
+
+example : ([[1, 2, 3, 4], [5, 6, 7, 8]] : List (List Rat)).length = size [2] ∧
+    binTensorL [2] [2] [2] ([1, 2, 3, 4, 5, 6, 7, 8] : List Rat) = [3, 7, 11, 15] := by
+  constructor <;> decide +kernel
+
 /-! ## supersampling -/
 
 /-- **Supersampled evaluation of an affine function equals its direct evaluation** whenever
